@@ -330,6 +330,22 @@ func runCheck(repo, verif, prop, tier string, seed int, overlay map[string][]byt
 		all = append(all, groups[n].obls...)
 	}
 	d.dischargeAll(all, runtime.NumCPU())
+	// second chance for undecided obligations (timeout/unknown, never for sat): a loaded
+	// machine must not turn a slow proof into an alarm - rerun them a few at a time with
+	// a three times longer budget
+	var retry []*Obligation
+	for _, o := range all {
+		if o.Result == "timeout" || o.Result == "unknown" {
+			o.Result, o.Solver = "", ""
+			retry = append(retry, o)
+		}
+	}
+	if len(retry) > 0 {
+		d2 := newDischarger(tier)
+		d2.quickS, d2.fullS = 10, d.fullS*3
+		d2.dischargeAll(retry, 4)
+		rep.Notes = append(rep.Notes, fmt.Sprintf("%d obligations were undecided in the first pass and rerun with a longer budget", len(retry)))
+	}
 	d.dischargeAll(covers, runtime.NumCPU())
 	rep.Queries = len(all)
 	// vacuity: every relevant function needs a reachable exit
